@@ -1308,6 +1308,8 @@ class Pool:
 
     def _iterinactive(self):
         for worker in self._pool:
+            if getattr(worker, '_controlled_termination', False):
+                continue  # already on its way out (shrink / terminate_job)
             if not self._worker_active(worker):
                 yield worker
 
